@@ -232,6 +232,7 @@ func (w *c13Worker) eval(in []byte, deadline time.Duration) (status string, hung
 }
 
 type c13Runner struct {
+	how    string // how the last non-finishing CLI run showed
 	c      *Ctx
 	w      *c13Worker
 	n      int
@@ -255,14 +256,37 @@ func (r *c13Runner) close() {
 
 // cliConfirm runs the real CLI on the input; returns the command that does
 // not finish ("" when all finish).
-func (r *c13Runner) cliConfirm(in []byte, timeout time.Duration) string {
+// The CLI verdict does not rest on wall-clock time (a loaded machine makes
+// everything slow): a run "does not finish" when it has used c13CPULimit of
+// processor time - normal is milliseconds - or when it sits blocked, nothing
+// runnable and no processor time used, for c13BlockedFor. A run that got
+// neither that much processor time nor blocked within c13WallMax gives no
+// verdict.
+const (
+	c13CPULimit   = 20 * time.Second
+	c13BlockedFor = 30 * time.Second
+	c13WallMax    = 15 * time.Minute
+)
+
+// cliConfirm runs the three CLI commands on the input. It returns the command
+// that does not finish ("" if all finish) and how that showed; starved is set
+// when some run ended without a verdict.
+func (r *c13Runner) cliConfirm(in []byte, _ time.Duration) string {
 	f := filepath.Join(r.tmp, "in.y")
 	os.WriteFile(f, in, 0o644)
 	cli := r.c.CLI()
 	for _, cmd := range [][]string{{"generate", "go", f, filepath.Join(r.tmp, "o.go")}, {"generate", "typescript", f, filepath.Join(r.tmp, "o.ts")}, {"debug", f}} {
-		res := gen.Run(timeout, r.tmp, nil, cli, cmd...)
-		if res.TimedOut {
+		res := gen.RunCPU(c13CPULimit, c13BlockedFor, c13WallMax, r.tmp, cli, cmd...)
+		switch {
+		case res.Spun:
+			r.how = fmt.Sprintf("still running after %.0f s of processor time", res.CPU.Seconds())
 			return "yaccgo " + strings.Join(cmd[:len(cmd)-1], " ")
+		case res.Blocked:
+			r.how = fmt.Sprintf("blocked: no thread runnable and no processor time used for %.0f s", c13BlockedFor.Seconds())
+			return "yaccgo " + strings.Join(cmd[:len(cmd)-1], " ")
+		case res.Starved:
+			r.c.Inconclusive("a CLI run got neither 20 s of processor time nor blocked within 15 min: machine too loaded for a verdict")
+			return ""
 		}
 	}
 	return ""
@@ -309,12 +333,12 @@ func (r *c13Runner) check(in []byte, origin string) string {
 			c.Inconclusive("deadline miss not confirmed by the second CLI run")
 			return ""
 		}
-		return fmt.Sprintf("`%s` does not finish within 30 s (normal: milliseconds) on this %d-byte input [%s]; the in-process run was stuck in mode %q\ninput: %q", c1, len(in), origin, hung, clip(string(in), 600))
+		return fmt.Sprintf("`%s` does not finish (%s; normal: milliseconds) on this %d-byte input [%s]; the in-process run was stuck in mode %q\ninput: %q", c1, r.how, len(in), origin, hung, clip(string(in), 600))
 	}
 	if r.n%50 == 0 {
 		if cmd := r.cliConfirm(in, 30*time.Second); cmd != "" {
 			if cmd2 := r.cliConfirm(in, 30*time.Second); cmd2 != "" {
-				return fmt.Sprintf("`%s` does not finish within 30 s on this %d-byte input [%s] (the in-process worker finished)\ninput: %q", cmd, len(in), origin, clip(string(in), 600))
+				return fmt.Sprintf("`%s` does not finish (%s) on this %d-byte input [%s] (the in-process worker finished)\ninput: %q", cmd, r.how, len(in), origin, clip(string(in), 600))
 			}
 		}
 		c.Class("also-run-through-cli")
@@ -487,7 +511,7 @@ func init() {
 				}
 				if cmd := rn.cliConfirm([]byte(in), 30*time.Second); cmd != "" {
 					if cmd2 := rn.cliConfirm([]byte(in), 30*time.Second); cmd2 != "" {
-						c.Violate(mkC13([]byte(in), "native fuzzing crasher "+filepath.Base(f)), fmt.Sprintf("`%s` does not finish within 30 s on this %d-byte input found by coverage-guided fuzzing\ninput: %q", cmd, len(in), clip(in, 600)))
+						c.Violate(mkC13([]byte(in), "native fuzzing crasher "+filepath.Base(f)), fmt.Sprintf("`%s` does not finish (20 s of processor time or blocked) on this %d-byte input found by coverage-guided fuzzing\ninput: %q", cmd, len(in), clip(in, 600)))
 						continue
 					}
 				}
